@@ -1432,13 +1432,21 @@ protected:
 
       if (chunkSize == 0)
       {
-        // Final chunk, look for final \r\n
-        auto finalCRLF = data.find("\r\n", pos);
-        if (finalCRLF == std::string::npos)
+        // Final chunk: skip the trailer section (RFC 9112 §7.1.2), the request
+        // ends after the empty line that terminates it
+        while (true)
         {
-          return std::string::npos; // Need more data
+          auto lineEnd = data.find("\r\n", pos);
+          if (lineEnd == std::string::npos)
+          {
+            return std::string::npos; // Need more data
+          }
+          if (lineEnd == pos)
+          {
+            return lineEnd + 2;
+          }
+          pos = lineEnd + 2; // Skip trailer field line
         }
-        return finalCRLF + 2;
       }
 
       // Skip chunk data + trailing \r\n. chunkSize is peer-controlled and
